@@ -197,6 +197,10 @@ func genIn(r *common.Rand, sats uint64, allowBad bool) txgen.InSpec {
 func genSizeCases(r *common.Rand, n int) {
 	for k := 0; k < n; k++ {
 		q := feegen.Quotes[r.Intn(len(feegen.Quotes))]
+		if r.Chance(35) { // arbitrary rates: any satoshis per 3..1000 bytes, standard and data drawn separately
+			units := []int{100, 1000, 10, 7, 3, 250, 999}
+			q = feegen.Q(1+r.Intn(1000), units[r.Intn(len(units))], 1+r.Intn(1000), units[r.Intn(len(units))])
+		}
 		hyp := true
 		kind := "mixed"
 		s := txgen.TxSpec{Version: uint32(1 + r.Intn(2)), Lock: uint32(r.Intn(3))}
@@ -590,6 +594,6 @@ func main() {
 	if c.Mode == "gen" {
 		abortCase()
 	}
-	c.Stats.Rule = "size cases: 0..3 inputs (unsigned / signed with 1..253-byte scripts / P2PKH, P2PKH-inscription, nil, empty, mutated or random previous script) x 0..4 outputs or 252..254 identical outputs (P2PKH, OP_RETURN and OP_FALSE OP_RETURN with payloads {0,1,3,75,76,220,255,256,1000,70000}, near-miss prefixes, random) x 9 quotes (1/20..50 sat/byte, unequal std/data) x amount relations {out>in, fee-1, =fee, fee+1, =out, ample} against the real or the estimated size, plus missing fee type, zero denominator, wrapping products and totals; classification cases: every 1-bit mutation position of a P2PKH-inscription, P2PKH mutations, truncations, push-data edge scripts; DER: 11x11 boundary (r,s) grid + random; signed cases: 1..3 inputs locked to a random key, optionally partially signed first, signed by unlocker.Simple / FillAllInputs, (r,s) re-parsed from the script. distinct = distinct (tx, quote) / script / (r,s); non-trivial = transactions with at least one input or output, non-empty scripts, all signed cases"
+	c.Stats.Rule = "size cases: 0..3 inputs (unsigned / signed with 1..253-byte scripts / P2PKH, P2PKH-inscription, nil, empty, mutated or random previous script) x 0..4 outputs or 252..254 identical outputs (P2PKH, OP_RETURN and OP_FALSE OP_RETURN with payloads {0,1,3,75,76,220,255,256,1000,70000}, near-miss prefixes, random) x 9 quotes (1/20..50 sat/byte, unequal std/data; one case in three with arbitrary rates: 1..1000 satoshis per {3,7,10,100,250,999,1000} bytes, standard and data drawn separately) x amount relations {out>in, fee-1, =fee, fee+1, =out, ample} against the real or the estimated size, plus missing fee type, zero denominator, wrapping products and totals; classification cases: every 1-bit mutation position of a P2PKH-inscription, P2PKH mutations, truncations, push-data edge scripts; DER: 11x11 boundary (r,s) grid + random; signed cases: 1..3 inputs locked to a random key, optionally partially signed first, signed by unlocker.Simple / FillAllInputs, (r,s) re-parsed from the script. distinct = distinct (tx, quote) / script / (r,s); non-trivial = transactions with at least one input or output, non-empty scripts, all signed cases"
 	c.Finish()
 }
